@@ -86,6 +86,17 @@ public:
   std::string trouble;        // harness-side problem (ack timeout ...): case is inconclusive
   int polls = 0;
   bool start_blocked = false; // a write inside reproc_start would have blocked
+  // An implementation may wait "without bound" as an endless series of bounded
+  // polls (a sliced wait loop). When nothing is scheduled any more and the
+  // library has kept polling with finite timeouts for more than `horizon`
+  // virtual ms since the world last changed, that is the same unbounded wait:
+  // the property sets `horizon` above every finite bound its contract allows.
+  int64_t horizon = 400000000;
+  int64_t dry_since = -1;
+  bool hang_by_horizon = false;
+  // A poll entered at or after this virtual time is interrupted once (EINTR).
+  int64_t intr_poll_at = -1;
+  int64_t intr_fired_at = -1;
 
   static World *&current()
   {
@@ -129,6 +140,14 @@ public:
 
   void schedule(int64_t at, int kid, int kind, uint32_t a = 0, uint64_t b = 0) { agenda.insert({ at, Action{ kid, kind, a, b } }); }
 
+  // Call before a library call whose blocking behaviour is judged: the dry
+  // period (see `horizon`) is counted per call.
+  void call_begins(int64_t new_horizon = -1)
+  {
+    dry_since = -1;
+    if (new_horizon >= 0) horizon = new_horizon;
+  }
+
   int64_t next_time() const { return agenda.empty() ? INF : agenda.begin()->first; }
 
   // Lets virtual time pass up to `t`, performing everything scheduled until then.
@@ -144,6 +163,7 @@ public:
     if (agenda.empty()) return;
     auto it = agenda.begin();
     if (it->first > now) now = it->first;
+    dry_since = -1;
     Action a = it->second;
     agenda.erase(it);
     perform(a);
@@ -283,6 +303,7 @@ private:
       int r = ::poll(fds, n, 0);
       if (r != 0) {
         if (waited) episodes.push_back({ what, fd_for_log, entry, now, false, in_start });
+        dry_since = -1;
         return r;
       }
       waited = true;
@@ -300,8 +321,19 @@ private:
         episodes.push_back({ what, fd_for_log, entry, now, true, in_start });
         continue;
       }
+      if (next == INF && !all_dead()) {
+        if (dry_since < 0) dry_since = entry;
+        if (wake - dry_since > horizon && ++guard <= 3) {
+          now = wake;
+          hang_by_horizon = true;
+          declare_hang(what);
+          continue;
+        }
+      }
       now = wake;
-      episodes.push_back({ what, fd_for_log, entry, now, false, in_start });
+      // back-to-back bounded waits on the same thing are one blocking episode
+      if (!episodes.empty() && !episodes.back().hang && episodes.back().end == entry && episodes.back().fd == fd_for_log && episodes.back().in_start == in_start && !strcmp(episodes.back().what, what)) episodes.back().end = now;
+      else episodes.push_back({ what, fd_for_log, entry, now, false, in_start });
       return 0;
     }
   }
@@ -317,6 +349,13 @@ private:
   {
     World *w = current();
     w->polls++;
+    if (w->intr_poll_at >= 0 && w->now >= w->intr_poll_at) {
+      w->intr_poll_at = -1;
+      w->intr_fired_at = w->now;
+      *ret = -1;
+      *err = EINTR;
+      return 1;
+    }
     *ret = w->wait_ready(fds, n, timeout, "poll", -1);
     *err = 0;
     if (*ret < 0) *err = errno;
@@ -384,6 +423,7 @@ private:
     World *w = current();
     Kid *k = w->kid_of(pid);
     w->signals.push_back({ w->now, pid, sig, k ? k->alive : false });
+    w->dry_since = -1;
     if (!k || ret != 0 || !k->alive) return;
     if (sig == SIGKILL || (sig == SIGTERM && k->term_mode == TERM_DIE)) {
       if (!hz::wait_dead(pid, 10000)) {
